@@ -119,6 +119,12 @@ S(MANY(O("a", None, "o", "int", 1)), "many(option with default)", kind="hang")
 S(MANY(OPT(A("a", "int"))), "many(optional(argument))", kind="hang")
 S(P(A("b", "str"), MANY(U("a"))), "argument * many(unit)", kind="hang")
 
+# ---- added after the first mutation round (ids appended so that earlier ids stay stable)
+S(CMD(SW("a", None, "v"), [("add", "x", P(A("b", "str"), O("c", None, "n", "int"))), ("del", "y", A("d", "int"))]),
+  "commands whose sub-command has its own option and an argument (sub parser's own context)")
+S(P(O("a", None, "o", "int", 0), CMD(U("b"), [("go", "x", P(A("c", "str"), O("d", None, "p", "str", "zz")))])),
+  "option * commands: the commands parser ignores the outer context")
+
 SHAPES = _S
 
 LABELS = ["a", "b", "c", "d", "e", "g", "s", "t", "x", "y", "z"]
